@@ -329,7 +329,7 @@ var regimeList = []*regime{
 		},
 	},
 	{
-		key: "gb", countries: []string{"GB"}, prefixes: []string{"GB"}, alphabet: digits + "GDHA", lengths: []int{9, 12, 5},
+		key: "gb", countries: []string{"GB"}, prefixes: []string{"GB", "GB", "XI", "XU"}, alphabet: digits + "GDHA", lengths: []int{9, 12, 5},
 		ref: gbRef,
 		valid: func(s src) string {
 			return retry(gbRef, func() string {
